@@ -10,8 +10,11 @@ for mf in sorted(glob.glob(os.path.join(verif, "seeded", "*", "meta.json"))):
     checks = ", ".join(f"{p}: {v['verdict'].lower()}" for p, v in m.get("checks", {}).items())
     rows.append(f"| {os.path.basename(os.path.dirname(mf))} | {first[:110]} | {checks} |")
 caught = sum(1 for r in rows if f": caught" in r.split("|")[3].split(",")[0])
+other = sum(1 for r in rows if ": caught" not in r.split("|")[3].split(",")[0] and ": caught" in r.split("|")[3])
+silent = sum(1 for r in rows if ": silent" in r.split("|")[3].split(",")[0])
 table = "| change | what it is (first line of the agent's note) | result (own property first) |\n|---|---|---|\n" + "\n".join(rows)
-table += f"\n\n{len(rows)} confirmed changes; {caught} caught by the quick check of their own property.\n"
+table += (f"\n\n{len(rows)} confirmed changes; {caught} caught by the quick check of their own property, {other} caught by the check of the "
+          f"property they break by its statement (see the note below the round-5 table), {silent} harmless since a repair.\n")
 p = os.path.join(verif, "DESIGN.md")
 s = open(p).read()
 a = s.index("<!-- MATRIX:BEGIN -->") + len("<!-- MATRIX:BEGIN -->")
